@@ -6,11 +6,13 @@
 //! note-encryption helpers the repository exposes for tests (`TestFvk`).
 
 pub mod chain;
+pub mod history;
 pub mod ledger;
 pub mod spec;
 pub mod wallet;
 
 pub use chain::*;
+pub use history::*;
 pub use ledger::*;
 pub use spec::*;
 pub use wallet::*;
